@@ -663,18 +663,23 @@ nothing is reported at all, the scanner gives up at offset 255 -/
 example : (Rtu.decodeRsp (List.replicate 300 0x42 ++ C14.rtuRsp)).isErr = true := by decide +kernel
 
 /-- the 'incomplete' case of `tcp_rsp_none_iff`: the well-formed TCP response
-`tcpFrame 0x0102 0x11 [0x01, 0x01, 0x05]` starts at offset 20, but its length byte 0x04 is read as
-function code 4 (byte count 0x11) from offset 18, where all of 0 .. 17 are rejected: the scanner waits -/
-def waitBuf : Bytes := List.replicate 20 0x42 ++ [0x01, 0x02, 0x00, 0x00, 0x00, 0x04, 0x11, 0x01, 0x01, 0x05]
+`tcpFrame 0x0102 0x11 [0x01, 0x01, 0x05]` starts at offset 20, but the bytes `42 42 00 00 00 15 11 03 12`
+at offset 11 are a consistent MBAP header (protocol 0, length 0x15) of a ReadHoldingRegisters response
+with byte count 0x12 that is not complete, and all of 0 .. 10 are rejected: the scanner waits.
+(Before the repair of `tcp::decode` twenty bytes 0x42 in front of the frame had the same effect — the
+length byte 0x04 read as a function code from offset 18; that candidate is now refuted by the protocol
+identifier visible there, see `C14.tcp_rsp_resync_stray`.) -/
+def waitBuf : Bytes := List.replicate 11 0x42 ++ [0x42, 0x42, 0x00, 0x00, 0x00, 0x15, 0x11, 0x03, 0x12] ++
+  [0x01, 0x02, 0x00, 0x00, 0x00, 0x04, 0x11, 0x01, 0x01, 0x05]
 
 example : waitBuf.drop 20 = Spec.tcpFrame 0x0102 0x11 [0x01, 0x01, 0x05] ++ [] := by decide +kernel
 example : Tcp.decodeRsp waitBuf = .ok none := by decide +kernel
 example : ∃ s, s < 20 ∧ (∀ i, i < s → (Tcp.attemptRsp (waitBuf.drop i)).isErr = true) ∧
     Tcp.attemptRsp (waitBuf.drop s) = .ok none :=
-  ⟨18, by decide, by decide +kernel, by decide +kernel⟩
+  ⟨11, by decide, by decide +kernel, by decide +kernel⟩
 example : Tcp.decodeRsp waitBuf = .ok none :=
   (tcp_rsp_none_iff 0x0102 0x11 [0x01, 0x01, 0x05] (by unfold Spec.PduComplete; decide) (by decide)
-    waitBuf [] 20 (by decide +kernel) (by decide)).2 ⟨18, by decide, by decide +kernel, by decide +kernel⟩
+    waitBuf [] 20 (by decide +kernel) (by decide)).2 ⟨11, by decide, by decide +kernel, by decide +kernel⟩
 
 /-- `*_reports`: no offset before the frame is 'incomplete' ⇒ a frame with `start ≤ d` is reported -/
 example : ∃ f loc, Rtu.decodeRsp (List.replicate 40 0x42 ++ C14.rtuRsp ++ [0x00]) = .ok (some (f, loc)) ∧
